@@ -24,47 +24,47 @@ func (f Finding) String() string { return fmt.Sprintf("[%s] op %d: %s", f.Clause
 
 // Clause names.
 const (
-	CUserCodeOutsideInvoke = "user-code-outside-invoke" // C03
-	CUnregisteredRan       = "unregistered-fn-ran"      // C01/C06
-	CExecTwice             = "exec-twice"               // C02
-	CNested                = "nested-entry"             // C02
-	COutsideClosure        = "outside-closure"          // C03
-	CMustRunMissing        = "mustrun-missing"          // C03
-	CProvSingle            = "prov-single"              // C01/C08/C09/C12
-	CFromNowhere           = "value-from-nowhere"       // C01/C08/C09
-	CZeroAvailable         = "zero-for-available"       // C01/C04
-	CZeroRequired          = "zero-required"            // C01/C04
-	CNonZeroUnavail        = "nonzero-for-unavailable"  // C04
-	CBadExec               = "from-failed-or-unfinished-exec" // C07/C03
-	CPoisoned              = "poisoned-token"           // C07
-	CGroupMultiset         = "group-multiset"           // C10/C12
-	CGroupForeign          = "group-foreign-member"     // C01/C10
-	CSoftUpper             = "soft-upper"               // C11
-	CSoftLower             = "soft-lower"               // C11
-	CSoftDup               = "soft-dup"                 // C11
-	CInvokedOnce           = "invoked-once"             // C01
-	CVerdictInvoke         = "verdict-invoke"           // C04/C08
-	CVerdictProvide        = "verdict-provide"          // C09
-	CVerdictDecorate       = "verdict-decorate"         // C12
+	CUserCodeOutsideInvoke = "user-code-outside-invoke"        // C03
+	CUnregisteredRan       = "unregistered-fn-ran"             // C01/C06
+	CExecTwice             = "exec-twice"                      // C02
+	CNested                = "nested-entry"                    // C02
+	COutsideClosure        = "outside-closure"                 // C03
+	CMustRunMissing        = "mustrun-missing"                 // C03
+	CProvSingle            = "prov-single"                     // C01/C08/C09/C12
+	CFromNowhere           = "value-from-nowhere"              // C01/C08/C09
+	CZeroAvailable         = "zero-for-available"              // C01/C04
+	CZeroRequired          = "zero-required"                   // C01/C04
+	CNonZeroUnavail        = "nonzero-for-unavailable"         // C04
+	CBadExec               = "from-failed-or-unfinished-exec"  // C07/C03
+	CPoisoned              = "poisoned-token"                  // C07
+	CGroupMultiset         = "group-multiset"                  // C10/C12
+	CGroupForeign          = "group-foreign-member"            // C01/C10
+	CSoftUpper             = "soft-upper"                      // C11
+	CSoftLower             = "soft-lower"                      // C11
+	CSoftDup               = "soft-dup"                        // C11
+	CInvokedOnce           = "invoked-once"                    // C01
+	CVerdictInvoke         = "verdict-invoke"                  // C04/C08
+	CVerdictProvide        = "verdict-provide"                 // C09
+	CVerdictDecorate       = "verdict-decorate"                // C12
 	CUnavailDirectRan      = "ran-with-unavailable-direct-dep" // C04
-	CEscapedPanic          = "escaped-panic"            // C14 and everything
-	CForeign               = "foreign-value"            // harness sanity
+	CEscapedPanic          = "escaped-panic"                   // C14 and everything
+	CForeign               = "foreign-value"                   // harness sanity
 )
 
 type InvokeInfo struct {
 	Bystanders      int // registered functions outside mayRun at the time of the Invoke
 	BystanderScopes int
-	Op        int
-	Fn        *MFn
-	Zones     Zones
-	MayRun    map[int]bool
-	MustRun   map[int]bool
-	Avail     bool
-	FaultFree bool
-	Pred      string // predicted class ("" = not predicted)
-	Ran       []int  // fn ids entered during the op (in order)
-	RanOK     []int
-	Invoked   int
+	Op              int
+	Fn              *MFn
+	Zones           Zones
+	MayRun          map[int]bool
+	MustRun         map[int]bool
+	Avail           bool
+	FaultFree       bool
+	Pred            string // predicted class ("" = not predicted)
+	Ran             []int  // fn ids entered during the op (in order)
+	RanOK           []int
+	Invoked         int
 }
 
 type VResult struct {
